@@ -527,12 +527,33 @@ fn literal_cases() -> Vec<LitCase> {
         "0.0", "-0.0", "1.5", "3.75", "0.1", "+2.5", "-2.5", "3.4028234e38", "3.4028235e38", "3.4028236e38", "3.40282357e38", "-3.4028235e38",
         "-3.4028236e38", "1e38", "1e39", "-1e39", "1.0e-45", "1e-46", "1.17549435e-38", "1e308", "1.7976931348623157e308", "1e-320", "1e-400",
         "16777217.0", "9007199254740993.0", "1E5", "1e+5", "2.5E-3", "123456789.125", "0.30000000000000004",
+        // beyond the range of Float64 as well
+        "1e309", "1e400", "-1e400", "1.0e400", "17976931348623159e292",
     ];
     for t in FloatType::ALL {
         for f in floats {
             v.push(LitCase::Float { ty: t, text: f.to_string() });
         }
         v.push(LitCase::IntAtFloat { ty: t });
+    }
+    // decimal literals a hair above / below the midpoint of two adjacent Float32 values, with more digits than Float64
+    // holds: rounding the decimal to Float64 first lands exactly on the midpoint and loses the side it was on
+    for x in [1.0f32, 1.5, 3.0, 0.1, 0.7, 2.5e-3, 16_777_216.0, 1.0e10, 123_456.79, 3.0e38, 1.0e-30, 65_504.0, 0.333_333_34] {
+        let up = f32::from_bits(x.to_bits() + 1);
+        let m = (f64::from(x) + f64::from(up)) / 2.0;
+        let exact = format!("{:.120}", m);
+        let exact = exact.trim_end_matches('0').to_string();
+        let exact = if exact.ends_with('.') { format!("{exact}0") } else { exact };
+        let above = format!("{exact}0000000000000001");
+        // below: decrement the last non-zero digit, then nines
+        let mut digits: Vec<char> = exact.chars().collect();
+        if let Some(i) = digits.iter().rposition(|c| c.is_ascii_digit() && *c != '0') {
+            digits[i] = char::from_digit(digits[i].to_digit(10).unwrap() - 1, 10).unwrap();
+            let below: String = digits.iter().collect::<String>() + "9999999999999999";
+            v.push(LitCase::Float { ty: FloatType::Float32, text: below });
+        }
+        v.push(LitCase::Float { ty: FloatType::Float32, text: above });
+        v.push(LitCase::Float { ty: FloatType::Float32, text: exact });
     }
     for t in IntegerType::ALL {
         v.push(LitCase::FloatAtInt { ty: t });
@@ -560,7 +581,10 @@ fn run_literal(_cfg: &Cfg, index: u64, stats: &mut Stats) {
         AcceptInt(i128),
         AcceptFloat(FloatType, u64),
         Reject,
+        /// the statement does not say (a decimal literal beyond the range of Float64 at Float64)
+        Unspecified,
     }
+    let mut extra_tags: Vec<String> = Vec::new();
     let (body, expect, key) = match case {
         | LitCase::Int { ty, text, value } => {
             let (lo, hi) = range(*ty);
@@ -587,10 +611,16 @@ fn run_literal(_cfg: &Cfg, index: u64, stats: &mut Stats) {
             let v: f64 = text.parse().expect("float literal");
             let body = format!("let x : {} = {} in\n{}", float_type_name(*ty), text, print(&format!("{}_to_string", ty.source_name())));
             let expect = match ty {
-                | FloatType::Float64 => Expect::AcceptFloat(*ty, v.to_bits()),
+                | FloatType::Float64 if v.is_finite() => Expect::AcceptFloat(*ty, v.to_bits()),
+                | FloatType::Float64 => Expect::Unspecified,
                 | FloatType::Float32 => {
-                    let n = v as f32;
-                    if !v.is_finite() || n.is_finite() { Expect::AcceptFloat(*ty, n.to_bits() as u64) } else { Expect::Reject }
+                    // the value of the literal at Float32 is the decimal rounded once, to Float32; it is accepted exactly
+                    // when that is finite
+                    let n: f32 = text.parse().expect("float literal");
+                    if n.to_bits() != (v as f32).to_bits() {
+                        extra_tags.push("float32-literal-decided-by-digits-beyond-float64".to_string());
+                    }
+                    if n.is_finite() { Expect::AcceptFloat(*ty, n.to_bits() as u64) } else { Expect::Reject }
                 }
             };
             (body, expect, format!("float/{}/{}", float_type_name(*ty), text))
@@ -612,6 +642,7 @@ fn run_literal(_cfg: &Cfg, index: u64, stats: &mut Stats) {
     stats.count(&format!("literal_{}", result.verdict.class()));
     let mut problem: Option<String> = None;
     match (&expect, &result.verdict) {
+        | (Expect::Unspecified, _) => stats.count("literal_unspecified_by_the_statement"),
         | (Expect::Reject, v) if v.is_reject() => {}
         | (Expect::Reject, v) => problem = Some(format!("expected rejection, got {}", v.brief())),
         | (_, v) if !v.is_accept() => problem = Some(format!("expected acceptance, got {}", v.brief())),
@@ -641,7 +672,7 @@ fn run_literal(_cfg: &Cfg, index: u64, stats: &mut Stats) {
     if let Some(problem) = problem {
         stats.violation(Violation {
             signature: format!("literal-mismatch {}", key.split('/').next().unwrap_or("")),
-            tags: vec![key.clone()],
+            tags: std::iter::once(key.clone()).chain(extra_tags.iter().cloned()).collect(),
             generator: "literals".into(),
             index,
             detail: json!({"case": key, "problem": problem, "sources": sources.to_json()}),
